@@ -324,6 +324,32 @@ def hook_lint():
                     raise Drift(f"{f}:{i + 2}: the statement guarded by cfg(not(clockbound_verif)) changed to `{nxt}`; its cfg(clockbound_verif) mirror no longer represents the code")
 
 
+REFINES_CONTROL = '''
+WpcBad == CASE wpc = "idle" -> "idle" [] wpc = "odd" -> "ld" [] wpc \\in {"wfence", "w1", "w2"} -> "odd" [] wpc = "even" -> "h2" [] OTHER -> "dead"
+SB == INSTANCE SeqInd WITH gen <- Top("gen"), w1 <- Top(WL(1)), w2 <- Top(WL(2)), wpc <- WpcBad, cur <- wk, done <- pubDone,
+       rpc <- [r \\in Readers |-> RpcMap(r)], rg1 <- g1, rv1 <- [r \\in Readers |-> snap[r][1]], rv2 <- [r \\in Readers |-> snap[r][2]],
+       cgen <- cacheGen, cpub <- [r \\in Readers |-> cacheRec[r][1]]
+BadStep == [][SB!Next]_(SB!vars)
+'''
+
+
+def seg_refines(rep, tier, wprog, rprog):
+    """TLC: ShmSeg (SC, warm starts, the extracted programs) refines SeqInd and its reachable states satisfy SeqInd's
+    inductive invariant under the refinement mapping of SegRefines.tla; a wrong mapping is rejected (control)."""
+    c = dict(sc=True, retry=2, readers="R2", maxpub=2 if tier == "quick" else 3, maxcrash=1, maxinc=2, maxcalls=1 if tier == "quick" else 2, files="SFref")
+    mod = seg_module("X_refines_" + rep.pid, "SegRefines", wprog, rprog, REFINES_CONTROL)
+    cfg = seg_cfg("X_refines_" + rep.pid, "Spec", c, ["RefInv", "NeverCold"], ["RefStep"])
+    r = cb.tlc(mod, cfg, "refines_" + rep.pid, workers=8, timeout=3000)
+    rep.add_tlc(r, "TLC SegRefines: ShmSeg (SC, warm start files, two readers) => SeqInd!Next steps, SeqInd!IndInv on every reachable state")
+    if r.violated:
+        raise Drift(f"ShmSeg no longer refines SeqInd ({r.violated}): the unbounded argument does not cover this code")
+    cfg = seg_cfg("X_refines_" + rep.pid, "Spec", dict(c, maxpub=2, maxcalls=1), [], ["BadStep"])
+    r2 = cb.tlc(mod, cfg, "refines_" + rep.pid, workers=4, timeout=600)
+    if not r2.violated:
+        raise ToolError("refinement control: a wrong mapping (second word written = still 'odd') was accepted")
+    rep.notes.append("refinement control: a wrong pc mapping is rejected by TLC, as it must")
+
+
 def seq_induction(rep):
     """C02/C03 for unbounded publications, deaths and warm restarts (SC): SeqInd.tla's inductive invariant by Apalache,
     plus two controls (a broken protocol must NOT pass)."""
@@ -339,7 +365,7 @@ def seq_induction(rep):
         if "The outcome is: NoError" not in out:
             raise ToolError(f"Apalache: SeqInd {what} failed:\n{out[-1500:]}")
         rep.notes.append(f"Apalache (SeqInd.tla: unbounded publications, deaths and warm restarts, two readers, SC): {what}")
-    controls = [("the writer does not make the generation odd before the copy", "gen' = (IF IsEven(gen) THEN gen + 1 ELSE gen) /\\ cur' = cur + 1", "gen' = gen /\\ cur' = cur + 1"),
+    controls = [("the writer does not make the generation odd before the copy", "gen' = (IF IsEven(gen) THEN gen + 1 ELSE gen) /\\ wpc' = \"odd\"", "gen' = gen /\\ wpc' = \"odd\""),
                 ("the reader accepts without comparing the generations", "IF gen = rg1[r]\n     THEN /\\ cgen'", "IF TRUE\n     THEN /\\ cgen'")]
     for what, old, new in controls:
         if old not in src:
@@ -417,6 +443,7 @@ def c02(tier, seed):
     # T: random schedules
     run.explore(seed, 30 if tier == "quick" else 400, 400 if tier == "quick" else 600, wprog, rprog, what="random schedules (W=7, 3 readers)")
     seq_induction(rep)
+    seg_refines(rep, tier, wprog, rprog)
     unhooked_stress(run, 2 if tier == "quick" else 20)
     if tier == "thorough":
         # the known finding, in the model: with a small modulus TLC finds the in-call wrap by itself
@@ -489,6 +516,7 @@ def c03(tier, seed):
     rep.notes.append(f"wrap: {[(c['mode'], c['publications_in_between'], c['result']) for c in res['cases']]}")
     rep.sample({"idle-reader wrap cases": [(c['mode'], c['publications_in_between'], c['result']) for c in res['cases']]})
     seq_induction(rep)
+    seg_refines(rep, tier, wprog, rprog)
     unhooked_stress(run, 2 if tier == "quick" else 20)
     run.explore(seed, 30 if tier == "quick" else 400, 400 if tier == "quick" else 600, wprog, rprog, what="random schedules (W=7, 3 readers)")
     glob_samples(cf, rep)
